@@ -37,7 +37,7 @@ class HdlcAddress:
         return len(self.to_bytes())
 
     def to_bytes(self):
-        out: List[Optional[int]] = list()
+        out: List[int] = list()
         if self.address_type == "client":
             # shift left 1 bit and set the lsb to mark end of address.
             out.append(((self.logical_address << 1) | 0b00000001))
@@ -46,26 +46,30 @@ class HdlcAddress:
 
             logical_higher, logical_lower = self._split_address(self.logical_address)
 
-            if self.physical_address:
+            if self.physical_address is not None:
                 physical_higher, physical_lower = self._split_address(
                     self.physical_address
                 )
                 # mark physical lower as end
                 physical_lower = physical_lower | 0b00000001
-                out.extend(
-                    [logical_higher, logical_lower, physical_higher, physical_lower]
-                )
+                if logical_higher is None and physical_higher is None:
+                    out.extend([logical_lower, physical_lower])
+                else:
+                    # as soon as one part needs two bytes both parts use two bytes.
+                    out.extend(
+                        [
+                            logical_higher or 0,
+                            logical_lower,
+                            physical_higher or 0,
+                            physical_lower,
+                        ]
+                    )
             else:
                 # no physical address so mark the logial as end.
                 logical_lower = logical_lower | 0b00000001
-                out.extend([logical_higher, logical_lower])
+                out.append(logical_lower)
 
-        out_bytes = list()
-        for address in out:
-            if address:
-                out_bytes.append(address.to_bytes(1, "big"))
-
-        return b"".join(out_bytes)
+        return bytes(out)
 
     @staticmethod
     def _split_address(address: int) -> Tuple[Optional[int], int]:
@@ -145,7 +149,7 @@ class HdlcAddress:
         elif destination_length == 4:
             address_bytes = hdlc_frame_bytes[3:7]
             destination_logical = HdlcAddress.parse_two_byte_address(address_bytes[:2])
-            destination_physical = HdlcAddress.parse_two_byte_address(address_bytes[3:])
+            destination_physical = HdlcAddress.parse_two_byte_address(address_bytes[2:])
 
         # Find source address
         source_length: int = 1
@@ -168,14 +172,18 @@ class HdlcAddress:
             source_physical = None
 
         elif source_length == 2:
-            address_bytes = hdlc_frame_bytes[3 + destination_length : 5 + source_length]
+            address_bytes = hdlc_frame_bytes[
+                3 + destination_length : 3 + destination_length + source_length
+            ]
             source_logical = address_bytes[0] >> 1
             source_physical = address_bytes[1] >> 1
 
-        elif destination_length == 4:
-            address_bytes = hdlc_frame_bytes[3 + destination_length : 7 + source_length]
+        elif source_length == 4:
+            address_bytes = hdlc_frame_bytes[
+                3 + destination_length : 3 + destination_length + source_length
+            ]
             source_logical = HdlcAddress.parse_two_byte_address(address_bytes[:2])
-            source_physical = HdlcAddress.parse_two_byte_address(address_bytes[3:])
+            source_physical = HdlcAddress.parse_two_byte_address(address_bytes[2:])
 
         return (
             (destination_logical, destination_physical, destination_length),
@@ -184,7 +192,7 @@ class HdlcAddress:
 
     @staticmethod
     def parse_two_byte_address(address_bytes: bytes):
-        if address_bytes != 2:
+        if len(address_bytes) != 2:
             raise ValueError(f"Can only parse 2 bytes for address")
         upper = address_bytes[0] >> 1
         lower = address_bytes[1] >> 1
